@@ -219,7 +219,9 @@ CHECKS = {
         technique="Coq proof (hook/pcall state machine: plain programs are always stopped within one hook period; pcall loop and exposed controls refuted) + every program shape run for real under a watchdog",
         text="Theorem c07_plain_programs_are_stopped for every program of the shape grammar that uses neither pcall nor the "
              "exposed controls; c07_pcall_loop_refuted, c07_pcall_swallows_refuted and c07_clear_hook_refuted show that the full "
-             "statement is false of the faithful model, as it is of the code (two known findings). Each body x wrapper (tight "
+             "statement is false of the faithful model, as it is of the code (known findings; c07_nested_invocation_loop_refuted: a "
+             "loop around a nested invocation behaves like a loop around pcall). Each body x wrapper x placement (module top "
+             "level, required/data module, after/inside a nested invocation) (tight "
              "loops, library loops, recursion; none/pcall/xpcall/nested/loops/coroutine/clear-hook/raise-limit) is compiled to a "
              "Lua module and run with a 1 s limit in its own process under an external kill, checking the abort bound, the "
              "timeout element, and that the same context then expands benign invocations correctly. PARTIAL: real time is "
